@@ -65,13 +65,16 @@ class Lazy:
         self.tier = tier
         self.index = []
         for combo in programs(tier):
-            for auth in (False, True, 'listed'):
+            for auth in (False, True, 'listed', 'pool'):      # 'pool': no auth, but --enable-conn-pool
                 # 'listed': --basic-auth on AND the auth plugin named explicitly after the user plugins
                 if auth and (tier == 'quick' and len(combo) > 1):
                     continue
                 if auth == 'listed' and len(combo) > 2:
                     continue
                 ends = ENDINGS if not auth else ['normal', 'bad-credentials']
+                if auth == 'pool':
+                    ends = ['normal', 'client-close-after-resp1', 'upstream-closes-after-resp1', 'upstream-closes-on-accept',
+                            'client-abort-after-R1']
                 for e in ends:
                     self.index.append((combo, auth, e))
 
@@ -89,7 +92,7 @@ class Lazy:
 
     def name(self, k):
         combo, auth, e = self.index[k]
-        return '%s/%s/%s' % ('.'.join(map(str, combo)), ('authlisted' if auth == 'listed' else 'auth') if auth else 'noauth', e)
+        return '%s/%s/%s' % ('.'.join(map(str, combo)), {'listed': 'authlisted', 'pool': 'pool', True: 'auth', False: 'noauth'}[auth], e)
 
     def by_name(self, name):
         for k in range(len(self.index)):
@@ -104,7 +107,10 @@ class Lazy:
         klasses = [plugins.recorder('P%d' % i, b) for i, b in enumerate(behs)]
         if auth == 'listed':
             klasses = klasses + [b'proxy.http.proxy.auth.AuthPlugin']
-        fa = ['--threadless'] + (['--basic-auth', 'u:p'] if auth else [])
+        pool = auth == 'pool'
+        if pool:
+            auth = False
+        fa = ['--threadless'] + (['--basic-auth', 'u:p'] if auth else []) + (['--enable-conn-pool'] if pool else [])
         r1 = R1AUTH if auth and e != 'bad-credentials' else R1
         origins = {('10.0.0.1', 80): lambda: HttpOrigin([], respond=lambda c, kk, r: [OK]),
                    ('10.0.0.7', 80): lambda: HttpOrigin([], respond=lambda c, kk, r: [OK])}
@@ -134,7 +140,7 @@ class Lazy:
             dns = {}
         return Scenario(self.name(k), fa, flags_opts={'plugins': klasses}, mode='local',
                         clients=[dict(script=script)], origins=origins, dns=dns, net=net, kinds='AF' if faulty else '', horizon=600,
-                        features={'n_plugins': len(combo), 'auth': bool(auth), 'auth_plugin_listed': auth == 'listed', 'ending': e + ('+faults' if faulty else ''),
+                        features={'n_plugins': len(combo), 'auth': bool(auth), 'auth_plugin_listed': auth == 'listed', 'conn_pool': pool, 'resolve_dns_overridden': any(OPTIONS[c] and OPTIONS[c][0] == 'resolve_dns' for c in combo), 'ending': e + ('+faults' if faulty else ''),
                                   '_bound': 1 if faulty else 0, '_faulty': faulty,
                                   'hooks': ','.join(sorted(set(OPTIONS[c][0] + ':' + OPTIONS[c][1] for c in combo if c))),
                                   '_behs': behs})
